@@ -133,7 +133,7 @@ Definition gfile_of (t : term) : gfile :=
   {| gf_elf := elf_of (gn t 1); gf_syms := map sym_of (gl (gn t 2)); gf_buildid := gs (gn t 3) |}.
 Definition gmapping_of (t : term) : gmapping :=
   {| gm_start := gz (gn t 0); gm_limit := gz (gn t 1); gm_offset := gz (gn t 2); gm_buildid := gs (gn t 3);
-     gm_rec := gz (gn t 4); gm_cands := gzs (gn t 5); gm_truth := gz (gn t 6); gm_bias := gz (gn t 7) |}.
+     gm_rec := gz (gn t 4); gm_cands := gzs (gn t 5); gm_truth := gz (gn t 6); gm_bias := gz (gn t 7); gm_fkind := gz (gn t 8) |}.
 Definition gprofile_of (t : term) : gprofile :=
   {| gp_scale := gz (gn t 0); gp_maps := map gmapping_of (gl (gn t 1));
      gp_samples := map (fun s => (map (fun f => (Z.to_nat (gz (gn f 0)), gz (gn f 1))) (gl (gn s 0)), gz (gn s 1))) (gl (gn t 2)) |}.
@@ -148,9 +148,12 @@ Definition e2e_views (format : string) (ns : list (list string * Z)) : list (lis
   else if String.eqb format "interactive" then [report_flat ns; report_stacks ns; report_flat ns; report_stacks ns]
   else if String.eqb format "web" then [report_flat ns; report_flat ns; report_flat ns]
   else [report_stacks ns].
+(* a legacy profile's map entries first go through massageMappings / remapMappingIDs *)
+Definition gprofile_model_of (t : term) : gprofile :=
+  if gb (gn t 3) then legacy_profile (gprofile_of t) else gprofile_of t.
 Definition run_e2e (i : term) : term :=
   let files := map gfile_of (gl (gn i 1)) in
-  let ps := e2e_order (map gprofile_of (gl (gn i 2))) in
+  let ps := e2e_order (map gprofile_model_of (gl (gn i 2))) in
   TL (TS "ok" :: map of_agg (e2e_views (gs (gn i 4)) (named_samples files ps))).
 Fixpoint views_eqb (a : list (list (string * Z))) (b : list term) : bool :=
   match a, b with
